@@ -1,3 +1,5 @@
+//go:build verif_all || verif_c19
+
 package driver
 
 import "net/url"
